@@ -12,17 +12,30 @@ mod verif_cache {
 
     static mut ENV_PUBLISHED: *mut () = std::ptr::null_mut();
 
+    // the models touch the cell directly (not through the atomic API, which is itself stubbed)
+    fn raw_get<T>(a: &AtomicPtr<T>) -> *mut T { unsafe { *a.as_ptr() } }
+    fn raw_set<T>(a: &AtomicPtr<T>, v: *mut T) { unsafe { *a.as_ptr() = v; } }
+    /// rely step: between any two atomic operations of this thread another reader may publish its decoding
+    fn env_step<T>(a: &AtomicPtr<T>) {
+        unsafe {
+            if !ENV_PUBLISHED.is_null() && raw_get(a).is_null() && kani::any() {
+                raw_set(a, ENV_PUBLISHED as *mut T);
+            }
+        }
+    }
+    /// load: any value allowed by the invariant, i.e. the current one after a possible rely step
+    fn load_model<T>(a: &AtomicPtr<T>, _o: Ordering) -> *mut T {
+        env_step(a);
+        raw_get(a)
+    }
+
     /// weak CAS: environment may publish first; then the CAS may succeed, fail because of the
     /// environment's value, or fail spuriously (returning the unchanged current value).
     fn weak_cas_model<T>(a: &AtomicPtr<T>, current: *mut T, new: *mut T, _s: Ordering, _f: Ordering) -> Result<*mut T, *mut T> {
-        unsafe {
-            if !ENV_PUBLISHED.is_null() && a.load(Ordering::SeqCst).is_null() && kani::any() {
-                a.store(ENV_PUBLISHED as *mut T, Ordering::SeqCst); // rely step of another thread
-            }
-        }
-        let cur = a.load(Ordering::SeqCst);
+        env_step(a);
+        let cur = raw_get(a);
         if cur == current && kani::any() {
-            a.store(new, Ordering::SeqCst);
+            raw_set(a, new);
             Ok(cur)
         } else {
             Err(cur) // includes cur == current: spurious failure
@@ -30,14 +43,10 @@ mod verif_cache {
     }
     /// strong CAS: same, but it fails only when the current value differs
     fn strong_cas_model<T>(a: &AtomicPtr<T>, current: *mut T, new: *mut T, _s: Ordering, _f: Ordering) -> Result<*mut T, *mut T> {
-        unsafe {
-            if !ENV_PUBLISHED.is_null() && a.load(Ordering::SeqCst).is_null() && kani::any() {
-                a.store(ENV_PUBLISHED as *mut T, Ordering::SeqCst);
-            }
-        }
-        let cur = a.load(Ordering::SeqCst);
+        env_step(a);
+        let cur = raw_get(a);
         if cur == current {
-            a.store(new, Ordering::SeqCst);
+            raw_set(a, new);
             Ok(cur)
         } else {
             Err(cur)
@@ -63,6 +72,7 @@ mod verif_cache {
     #[kani::stub(std::sync::atomic::Atomic::<*mut T>::compare_exchange_weak, weak_cas_model)]
     #[kani::stub(std::sync::atomic::Atomic::<*mut T>::compare_exchange, strong_cas_model)]
     #[kani::stub(crate::serde::de::from_slice_unchecked, decode_model)]
+    #[kani::stub(std::sync::atomic::Atomic::<*mut T>::load, load_model)]
     fn cache_parse_from_all_outcomes() {
         let env_active: bool = kani::any();
         let env = Arc::into_raw(Arc::new(String::from("e"))) as *mut ();
@@ -70,7 +80,7 @@ mod verif_cache {
         let inner = Inner { status: HasEsc::Yes, unescaped: AtomicPtr::new(std::ptr::null_mut()) };
         let raw = br#""\n""#;
         let r = inner.parse_from(&raw[..]);
-        let p = inner.unescaped.load(Ordering::SeqCst);
+        let p = raw_get(&inner.unescaped);
         if let Some(s) = r {
             // the reference handed out is the published decoding
             assert!(!p.is_null());
@@ -79,18 +89,24 @@ mod verif_cache {
             kani::cover!(p == env);
             kani::cover!(p != env);
         }
-        // second call is served from the cache
+        // second call is served from the cache (which never changes once set)
         if !p.is_null() {
             let r2 = inner.parse_from(&raw[..]);
             assert!(r2.is_some());
-            assert!(inner.unescaped.load(Ordering::SeqCst) == p);
+            assert!(raw_get(&inner.unescaped) == p);
         }
-        // clone bumps the count of the published decoding; both drops release it exactly once each
+        // clone — possibly racing with the publication: whatever pointer the clone ends up holding, it
+        // holds a share of it (count >= 2: the original's cache + the clone)
         let c = inner.clone();
-        assert!(c.unescaped.load(Ordering::SeqCst) == p);
-        if !p.is_null() {
-            assert!(unsafe { Arc::strong_count(&*std::mem::ManuallyDrop::new(Arc::from_raw(p as *const String))) } >= 2);
+        let pc = raw_get(&c.unescaped);
+        if !pc.is_null() {
+            assert!(pc == raw_get(&inner.unescaped));
+            assert!(unsafe { Arc::strong_count(&*std::mem::ManuallyDrop::new(Arc::from_raw(pc as *const String))) } >= 2);
+            kani::cover!(p.is_null());   // published between the original's decode attempt and the clone
         }
+        let p = raw_get(&inner.unescaped);
+        // drop has exclusive access (&mut self): no other reader can publish any more
+        unsafe { ENV_PUBLISHED = std::ptr::null_mut(); }
         drop(c);
         drop(inner);
         if env_active && p != env {
